@@ -275,6 +275,9 @@ func errClass(e string) string {
 		{"invalid ip", "v1-ip"},
 		{"invalid port", "v1-port"},
 		{"corrupted", "v1-corrupted"},
+		{"is not of the protocol's address family", "v1-family"},
+		{"after the destination port", "v1-extra-token"},
+		{"expected a space after the protocol", "v1-separator"},
 	} {
 		if strings.Contains(e, p.sub) {
 			return p.cls
